@@ -57,6 +57,23 @@ Definition chk_eval (c : ecase) : list N :=
      let '(_, _, gout) := o in
      if mres_eqb (res_to_mres (snd (sem fetch test_custom t'))) gout then [] else [15%N]
    | _, _ => [] end) ++
+  (* 17: ... and BOTH are values, and they differ: the implementation's optimisation changed the value (C02) *)
+  (match ec_opt c, ec_eval c with
+   | Some g, Some o =>
+     if tree_eqb t' g then [] else
+     let '(_, _, gout) := o in
+     match res_to_mres (snd (sem fetch test_custom t')), gout with
+     | MVal x, MVal y => if value_eqb x y then [] else [17%N]
+     | _, _ => []
+     end
+   | _, _ => [] end) ++
+  (* 16: the same for TryEval and its tree-level meaning on the model-optimised tree *)
+  (match ec_opt c, ec_try c with
+   | Some g, Some o =>
+     if tree_eqb t' g then [] else
+     let '(_, _, gout) := o in
+     if mres_eqb (res_to_mres (snd (trysem fetch test_custom cached t'))) gout then [] else [16%N]
+   | _, _ => [] end) ++
   (* 2: capacity decision (of Go's own optimised tree when available) *)
   (let tt := match ec_opt c with Some g => g | None => t' end in
    match compile_checked cfg tt with
@@ -74,6 +91,15 @@ Definition chk_eval (c : ecase) : list N :=
      (match ec_prog c, ec_eval c with
       | Some Pg, Some o => if obs_match ev true (eval fetch test_custom Pg) o then [] else [4%N]
       | _, _ => [] end) ++
+     (* 14 (C12): event mode, Go's program IS the model's program, and the events Go emits (OP_EXEC payloads, LOOP
+            position / node / stack snapshot) differ from those of the proven loop run on that very program *)
+     (match ec_prog c with
+      | Some Pg =>
+        if ev && prog_eqb Pm Pg then
+          (match ec_eval c with Some o => if obs_match ev true (eval fetch test_custom Pg) o then [] else [14%N] | None => [] end) ++
+          (match ec_try c with Some o => if obs_match ev true (tryeval fetch test_custom cached Pg) o then [] else [14%N] | None => [] end)
+        else []
+      | None => [] end) ++
      (* 5: behaviour against the reference semantics of the optimised tree (C01/C03) *)
      (match ec_eval c with
       | Some o =>
